@@ -13,6 +13,7 @@ import SkVerif.Lemmas.PanelNames
 import SkVerif.Lemmas.Panel2d
 import SkVerif.Lemmas.PanelLong
 import SkVerif.Lemmas.PanelPath5
+import SkVerif.Lemmas.PanelLabels
 namespace SkVerif.C15
 open SkVerif SkVerif.Panel SkVerif.Panel.Spec SkVerif.Panel.Lem
 
@@ -508,6 +509,43 @@ theorem arr3_nested_duplicate_names_drop_columns :
       = .ok ⟨[(Name.s "a", [Cell.ser [3, 4]])]⟩ := by
   rfl
 
+/-! ### instance order with arbitrary instance identifiers
+
+The instance identifiers of a panel (row labels of the nested frame = instance level of the
+multi-index frame) are arbitrary pairwise distinct labels in ANY order — shuffled, descending,
+strings (mapped order-preservingly into the integers).  The panel's instance order is the order
+of the rows. -/
+
+/-- nested (row labels `labels`) → multi-index → nested returns the instances in the original row
+order, whatever the identifiers (the result carries a fresh RangeIndex) -/
+theorem nested_mi_nested_any_ids [DecidableEq ν] {n c t : Nat} {k : Bool} {N : Nested ν α}
+    (hN : WFNested n c t k N) (hn : 0 < n) (hc : 0 < c) (ht : 0 < t) (i tm : String)
+    (hne : i ≠ tm) (labels : List Int) (hll : labels.length = n) (hlnd : labels.Nodup) :
+    (fromNestedToMIIx labels N (some i) (some tm)).bind (fun M => fromMIToNested M (some i) k)
+      = .ok N := by
+  obtain ⟨hrect, heq⟩ := wfNested_eq_nestedOf hN hn hc
+  have hl : N.names.length = c := by simp [Nested.names, hN.2.1]
+  conv => lhs; rw [heq]
+  rw [fromNestedToMIIx_ok hrect hn hc N.names hl k (some i) (some tm) labels]
+  simp only [Except.bind, Option.getD]
+  rw [fromMIToNested_labelled hrect hn hc ht i tm hne N.names hl hN.1 k labels hll hlnd, ← heq]
+
+/-- multi-index (any distinct instance identifiers in any order) → nested: row `p` of the result
+is the `p`-th instance of the frame (order of appearance, NOT sorted identifiers) -/
+theorem mi_to_nested_keeps_instance_order [DecidableEq ν] {n c t : Nat} {X : Arr3 α}
+    (hX : Rect3 n c t X) (hn : 0 < n) (hc : 0 < c) (ht : 0 < t) (i tm : String) (hne : i ≠ tm)
+    (names : List ν) (hl : names.length = c) (hnd : names.Nodup) (k : Bool) (labels : List Int)
+    (hll : labels.length = n) (hlnd : labels.Nodup) :
+    fromMIToNested (miOfL i tm names labels X) (some i) k = .ok (nestedOf names k X) :=
+  fromMIToNested_labelled hX hn hc ht i tm hne names hl hnd k labels hll hlnd
+
+/-- … and so does multi-index → 3-D array; hence both agree with the direct nested → 3-D array -/
+theorem mi_to_arr3_keeps_instance_order {n c t : Nat} {X : Arr3 α} (hX : Rect3 n c t X)
+    (hn : 0 < n) (hc : 0 < c) (ht : 0 < t) (i tm : String) (hne : i ≠ tm) (names : List ν)
+    (hl : names.length = c) (labels : List Int) (hll : labels.length = n) (hlnd : labels.Nodup) :
+    fromMITo3d (miOfL i tm names labels X) (some i) (some tm) = .ok X :=
+  fromMITo3d_labelled hX hn hc ht i tm hne names hl labels hll hlnd
+
 /-! ### what the canonical multi-index frame and long table contain (validation of the specs) -/
 
 /-- the rows of the multi-index frame holding `X` are keyed `(0,0), (0,1), …, (n-1,t-1)` in
@@ -616,5 +654,9 @@ example : (path5 nameOps reservedName [Hop.nl none none none, Hop.ln "index" "ti
     = some (.tri .arr3, 1, 4, [[[3, 4, 1, 2]]]) := by rfl
 example : Inv 1 (⟨.tri (.nested [Name.s "b", Name.s "a"] true), 2, 2, [[[1, 2], [3, 4]]]⟩ : PState Name Nat) :=
   ⟨by simp [Rect3], by decide, by decide, by simp [Shape5.ok, Shape.ok]⟩
+
+example : fromMIToNested (miOfL "case" "t" [Name.s "a"] [2, 0, 3, 1]
+    ([[[0, 1]], [[10, 11]], [[20, 21]], [[30, 31]]] : Arr3 Nat)) (some "case") false
+    = .ok (nestedOf [Name.s "a"] false [[[0, 1]], [[10, 11]], [[20, 21]], [[30, 31]]]) := by rfl
 
 end SkVerif.C15
